@@ -430,7 +430,9 @@ pub fn check(id: &str, tier: Tier, seed: u64) -> i32 {
                         );
                         let _ = std::fs::remove_file(&tmp);
                         let confirmed = r.status == "timeout" || r.status.starts_with("signal");
-                        if is_alloc_failure(&r.stderr_tail) || is_alloc_failure(&tail) {
+                        if (is_alloc_failure(&r.stderr_tail) || is_alloc_failure(&tail))
+                            && !prop.alloc_failure_is_nontermination()
+                        {
                             inconclusive.push(format!(
                                 "allocation failure on case {} ({})",
                                 case, how
